@@ -13,7 +13,8 @@ RULE = ("two real dilated wormholes (Noise stand-in) run a random application sc
         "subchannel, closes, some operations issued while no connection exists - while the selected L2 "
         "link is killed: cut at a swept scheduler step (every step of the baseline in the thorough tier), "
         "one direction blackholed first (data delivered but acks lost, and the reverse) then cut, "
-        "several kills in a row (during the replay after a reconnect), long-lived sessions with 8-24 kills. TCP chunking down to single bytes "
+        "several kills in a row (during the replay after a reconnect), long-lived sessions with 8-24 kills; in a "
+        "quarter of the cases a second, undisturbed dilated pair runs its own script in the same process. TCP chunking down to single bytes "
         "makes kills land mid-frame. Non-trivial = at least one effective kill and one delivered write; "
         "distinct = scheduler decision traces.")
 ASSUMPTIONS = ["Noise stand-in (spec-conformant NNpsk0)", "bounded progress: 600 virtual seconds after the last kill"]
@@ -36,6 +37,8 @@ def cases(tier, seed, prep=None):
         if not q:
             for k in range(60, 420, 3):
                 out.append({"kind": "sweep", "seed": base + 50000 + b, "kill_at": k, "how": ["lose-acks", "lose-data"][k % 2]})
+    for i in range(40 if q else 1200):
+        out.append({"kind": "twins", "seed": base + 70000 + i})
     for b in (range(2) if q else range(10)):
         for k in range(80, 380, 20 if q else 4):
             out.append({"kind": "sweep", "seed": base + 60000 + b, "kill_at": k, "how": "cut", "again": [7, 25]})
@@ -46,8 +49,34 @@ def run_case(spec):
     world = World(spec["seed"])
     rng = world.work_rng
     dp = DilatedPair(world, ping_interval=rng.choice([None, 5.0]))
-    drv = ScriptDriver(dp, rng, late_listen=0.2)
-    sch = Scheduler(world, drv, strategy=rng.choice(["random", "pct", "netfirst"]), chunking=rng.choice(["mixed", "whole"]),
+    twins = spec["kind"] == "twins"
+    drv = ScriptDriver(dp, rng, late_listen=0.0 if twins else 0.2)
+    by = None
+    if twins or spec.get("bystander", spec["seed"] % 4 == 1):
+        # a second, undisturbed dilated pair in the same process: nothing of one pair may reach the other
+        dp2 = DilatedPair(world, ping_interval=None, code="77-by-stander")
+        drv2 = ScriptDriver(dp2, rng, late_listen=0.0, max_opens=2, max_writes=12, sizes=(1, 200, 5000), close_prob=0.3)
+        by = (dp2, drv2)
+    if twins:
+        for d_ in (drv, by[1]):
+            d_.budget["open"] = {"A": 1, "B": 1}
+            d_.budget["write"] = 0
+            d_.budget["close"] = 0
+
+    class Both:
+        def actions(self_):
+            acts = list(drv.actions())
+            if by is not None:
+                acts += [((k[0], "2:" + str(k[1])) + tuple(k[2:]), f) for (k, f) in by[1].actions()]
+            return acts
+
+        def drain_actions(self_):
+            acts = list(drv.drain_actions()) if hasattr(drv, "drain_actions") else list(drv.actions())
+            if by is not None:
+                d2 = by[1]
+                acts += [((k[0], "2:" + str(k[1])) + tuple(k[2:]), f) for (k, f) in (d2.drain_actions() if hasattr(d2, "drain_actions") else d2.actions())]
+            return acts
+    sch = Scheduler(world, Both(), strategy=rng.choice(["random", "pct", "netfirst"]), chunking=rng.choice(["mixed", "whole"]),
                     tiny_budget=rng.choice([0, 60, 300]))
     kills = {"done": 0, "skipped": 0, "retries": 0}
 
@@ -73,7 +102,9 @@ def run_case(spec):
             world.reactor.blackhole(link, direction=(d if how == "lose-data" else 1 - d))
             sch.faults.append((world.step + rng.randint(3, 30), lambda: world.reactor.cut(link), "cut after blackhole"))
             sch.faults.sort(key=lambda f: f[0])
-    if spec["kind"] == "random":
+    if twins:
+        pass
+    elif spec["kind"] == "random":
         nk = spec.get("nkills") or rng.choice([0, 1, 1, 2, 3, 5])
         for _ in range(nk):
             sch.faults.append((rng.randint(40, 500 if nk < 8 else 850), (lambda h=rng.choice(["cut", "cut", "lose-acks", "lose-data"]): kill(h)), "kill"))
@@ -84,6 +115,9 @@ def run_case(spec):
     sch.faults.sort(key=lambda f: f[0])
 
     def settled():
+        return settled_for(dp, drv) and (by is None or settled_for(*by))
+
+    def settled_for(dp, drv):
         if any(r["proto"] is None and r["failure"] is None for r in drv.opens):
             return False
         for (r, q) in drv.pairs():
@@ -98,18 +132,40 @@ def run_case(spec):
             if closed and not (("lost",) in [e[:1] for e in p.events] and ("lost",) in [e[:1] for e in q.events]):
                 return False
         return dp.both_connected() or not drv.opens
-    end1 = sch.run(900 + 150 * (spec.get("nkills") or 0))
-    drv.budget["open"] = {"A": 0, "B": 0}
-    drv.budget["write"] = 0
-    drv.budget["close"] = 0
-    for side in "AB":
-        while drv.pending_listen[side]:
-            drv.listen(side, drv.pending_listen[side].pop(0))
+    if twins:
+        # both pairs lose their connection at the same moment with records written during the outage, so that
+        # both Followers receive KCM + replayed records in the same reactor turn
+        def ready():
+            return (dp.both_connected() and by[0].both_connected() and
+                    all(len(d_.opens) == 2 and all(r["proto"] is not None for r in d_.opens) for d_ in (drv, by[1])))
+        sch.run(4000, until=ready)
+        sch.run(150)
+        for pair in (dp, by[0]):
+            link = pair.selected_link()
+            if link is not None:
+                world.reactor.cut(link)
+                kills["done"] += 1
+        for d_ in (drv, by[1]):
+            for side in "AB":
+                for p_ in d_.protos(side):
+                    if d_.is_open(p_):
+                        for _ in range(rng.randint(2, 4)):
+                            d_.write(p_)
+        end1 = "twins"
+    else:
+        end1 = sch.run(900 + 150 * (spec.get("nkills") or 0))
+    for d_ in [drv] + ([by[1]] if by else []):
+        d_.budget["open"] = {"A": 0, "B": 0}
+        d_.budget["write"] = 0
+        d_.budget["close"] = 0
+        for side in "AB":
+            while d_.pending_listen[side]:
+                d_.listen(side, d_.pending_listen[side].pop(0))
     end = sch.drain(600.0, 40000, until=settled)
     complete = settled()
     viol = []
     counters = {"kills": kills["done"], "kills_skipped": kills["skipped"], "opens": len(drv.opens),
-                "writes_delivered": 0, "complete": int(complete)}
+                "writes_delivered": 0, "complete": int(complete), "bystander_pairs": int(by is not None), "twin_cases": int(twins)}
 
     def wit(extra=None):
         w = {"spec": spec, "roles": {n: str(dp.role(n)) for n in "AB"}, "states": {n: dp.mstate(n) for n in "AB"},
@@ -119,9 +175,11 @@ def run_case(spec):
         if extra:
             w.update(extra)
         return w
-    for (r, q) in drv.pairs():
+    all_pairs = [(dp, drv, "")] + ([(by[0], by[1], "bystander ")] if by else [])
+    for (dp_, drv_, tag) in all_pairs:
+      for (r, q) in drv_.pairs():
         p = r["proto"]
-        label = "%s->%s %s" % (r["side"], "B" if r["side"] == "A" else "A", p.name)
+        label = "%s%s->%s %s" % (tag, r["side"], "B" if r["side"] == "A" else "A", p.name)
         if q is None:
             if not complete:
                 viol.append({"key": "C10/open-never-arrives", "msg": "%s: the peer never saw this subchannel (drain %s)" % (label, end), "witness": wit()})
@@ -150,18 +208,20 @@ def run_case(spec):
         if not closed and any(lost):
             viol.append({"key": "C10/connectionLost-without-close", "msg": "%s: nobody closed, yet opener=%s acceptor=%s lost" % (label, lost[0], lost[1]), "witness": wit()})
     # extra acceptor protocols nobody opened (duplicated OPEN)
-    for side in "AB":
-        other = "B" if side == "A" else "A"
-        for name, f in drv.factories[side].items():
-            n_open = len([r for r in drv.opens if r["side"] == other and r["name"] == name and r["proto"] is not None])
-            if len(f.built) > n_open:
-                viol.append({"key": "C10/subchannel-opened-twice", "msg": "%s built %d protocols for %r, the peer opened %d" % (side, len(f.built), name, n_open), "witness": wit()})
-    for r in drv.opens:
-        if r["failure"]:
-            viol.append({"key": "C10/connect-failed/" + r["failure"], "msg": "connect() failed: %s" % r["failure"], "witness": wit()})
-    dp.a.close()
-    dp.b.close()
-    sch.drain(120.0, 8000, until=lambda: dp.a.closed and dp.b.closed)
+    for (dp_, drv_, tag) in all_pairs:
+        for side in "AB":
+            other = "B" if side == "A" else "A"
+            for name, f in drv_.factories[side].items():
+                n_open = len([r for r in drv_.opens if r["side"] == other and r["name"] == name and r["proto"] is not None])
+                if len(f.built) > n_open:
+                    viol.append({"key": "C10/subchannel-opened-twice", "msg": "%s%s built %d protocols for %r, the peer opened %d" % (tag, side, len(f.built), name, n_open), "witness": wit()})
+        for r in drv_.opens:
+            if r["failure"]:
+                viol.append({"key": "C10/connect-failed/" + r["failure"], "msg": "%sconnect() failed: %s" % (tag, r["failure"]), "witness": wit()})
+    apps = [dp.a, dp.b] + ([by[0].a, by[0].b] if by else [])
+    for a_ in apps:
+        a_.close()
+    sch.drain(120.0, 8000, until=lambda: all(a_.closed for a_ in apps))
     world.finish()
     nontrivial = trace_digest(sch) if (kills["done"] and counters["writes_delivered"]) else None
     counters.update({"notrans_seen": len(MON.notrans), "log_errors_seen": len(MON.errors), "steps": world.step})
